@@ -53,3 +53,37 @@ def finalize_keeps_tx(ex, lock, fb):
                     *[sand(x.value == y.value, x.script_pub_key.script == y.script_pub_key.script) for x, y in zip(a.vout, b.vout)])
     return {"finalize_keeps_the_transaction": same(ftx, before), "finalize_then_to_v0_keeps_it": same(v0tx, before), "extracted_is_that_transaction": same(final, before),
             "argument_unchanged": p.serialize(check_validity=False) == raw_before}
+
+
+# ------------------------------------------------------------------ the streamed view agrees with the parsed object
+from btclib.psbt.psbt_view import PsbtView
+
+
+@ob("C11", "psbt_view_agrees_with_the_parsed_psbt", quick=[dict(scenario=s, version=v) for s in ("disjoint_sigs", "updater_fields", "optional_ints") for v in (0, 2)],
+    bound="the one-input PSBTs of the combine scenarios (version 0 and 2, value bytes symbolic), serialized and opened as a PsbtView: the view's globals, input(0), output(0), tx, lock_time and "
+          "(where the input carries its utxo) prevouts equal those of the parsed Psbt",
+    functions=["btclib.psbt.psbt_view.PsbtView.__init__", "btclib.psbt.psbt_view.PsbtView.input", "btclib.psbt.psbt_view.PsbtView.tx"], min_ok=1, timeout=600)
+def view_agrees(ex, scenario, version):
+    from harness.c11_combine import _operand
+    p = _operand(ex, scenario, 0 if scenario == "optional_ints" else 1, version)
+    raw = p.serialize(check_validity=False)
+    try:
+        view = PsbtView(raw)
+        vin0 = view.input(0, check_validity=False)
+        vout0 = view.output(0, check_validity=False)
+        vtx = view.tx
+        vlock = view.lock_time
+    except BTClibValueError:
+        return {"own_serialization_opens_as_a_view": False}
+    ptx = p.tx
+    claims = {"globals": sand(view.version == p.version, view.tx_version == p.tx_version, view.input_count == 1, view.output_count == 1, view.unknown == p.unknown,
+                              view.hd_key_paths == p.hd_key_paths, (view.fallback_lock_time == p.fallback_lock_time) if p.fallback_lock_time is not None else view.fallback_lock_time is None),
+              "input_map": vin0 == p.inputs[0], "output_map": vout0 == p.outputs[0],
+              "transaction": sand(vtx.version == ptx.version, vtx.lock_time == ptx.lock_time, vtx.vin[0].prev_out.tx_id == ptx.vin[0].prev_out.tx_id, vtx.vin[0].sequence == ptx.vin[0].sequence,
+                                  vtx.vout[0].value == ptx.vout[0].value, vtx.vout[0].script_pub_key.script == ptx.vout[0].script_pub_key.script),
+              "lock_time": vlock == p.lock_time}
+    if scenario == "updater_fields":
+        from btclib.psbt.psbt import prevouts as _prevouts
+        a, b = view.prevouts, _prevouts(p)
+        claims["prevouts"] = sand(len(a) == len(b), *[sand(x.value == y.value, x.script_pub_key.script == y.script_pub_key.script) for x, y in zip(a, b)])
+    return claims
